@@ -455,9 +455,28 @@ fn main() {
             }
             let mut in_domain = true;
             match op {
-                Op::Bm { .. } => {
+                Op::Bm { parent, page, .. } => {
                     ck.req(n, changed(&before, &doc).is_empty() && before.trailer == doc.trailer && before.max_id == doc.max_id,
                            || "add_bookmark changed objects, trailer or max_id".into());
+                    if !panicked {
+                        // the new bookmark is a root (no parent), the last child of its parent (known parent), or an orphan; nothing else moves
+                        let id = doc.max_bookmark_id;
+                        let mut want_roots = before.bookmarks.clone();
+                        if parent.is_none() {
+                            want_roots.push(id);
+                        }
+                        ck.req(n, doc.bookmarks == want_roots, || format!("add_bookmark: the top-level bookmarks are {:?}, expected {:?}", doc.bookmarks, want_roots));
+                        ck.req(n, doc.bookmark_table.get(&id).map(|b| b.page == *page && b.children.is_empty() && b.id == id).unwrap_or(false),
+                               || "add_bookmark: the table entry of the new bookmark is wrong".into());
+                        for (k, b0) in &before.bookmark_table {
+                            let mut want = b0.children.clone();
+                            if *parent == Some(*k) {
+                                want.push(id);
+                            }
+                            ck.req(n, doc.bookmark_table.get(k).map(|b| b.children == want && b.page == b0.page).unwrap_or(false),
+                                   || format!("add_bookmark: children / page of bookmark {} are not what the call implies", k));
+                        }
+                    }
                     ck.req(n, panicked || (doc.max_bookmark_id == before.max_bookmark_id + 1 && doc.bookmark_table.len() == before.bookmark_table.len() + 1
                                            && out.args().first().and_then(|x| x.as_u64()) == Some(doc.max_bookmark_id as u64)),
                            || "add_bookmark did not hand out max_bookmark_id + 1".into());
